@@ -8,6 +8,7 @@ import numpy as np
 
 from .. import gen1
 from ..core import rs
+from . import coll_parts
 from .base1 import Hist1Prop
 from .c04 import values as grid_values
 
@@ -56,7 +57,11 @@ class C05(Hist1Prop):
     RULE = ("three data sets A, B, C over the same bins (static, gapped, or adaptive fixed-width histograms on one grid with "
             "different ranges) with independent weight kinds / dtypes: A+B vs h(A++B), B+A, (A+B)+C vs A+(B+C), sum([A,B,C]), "
             "sum([A]); operand snapshots before/after; an operand with different bins / a non-histogram operand must be "
-            "refused. non-trivial = both operands non-empty; distinct = hash of the op list")
+            "refused. One case in eight: a HistogramCollection over explicit bins (static / gapped / fixed-width) whose 1-4 "
+            "members are created (create / multi_h1) from a random partition of one data set (NaN, empty members, int / float "
+            "weights): sum() vs h1(all data) and vs another member order, members vs h1(part), look-ups, add() of the same / "
+            "another binning, normalize_all, sum() of an empty collection, copy() independence; members snapshotted around "
+            "every call. non-trivial = both operands non-empty; distinct = hash of the op list")
     FIELDS = {"bins", "freq", "err2", "under", "over", "total", "dtype", "keep"}
 
     def fields_for(self, case):
@@ -64,7 +69,25 @@ class C05(Hist1Prop):
             return self.FIELDS - {"under", "over"}
         return self.FIELDS
 
+    # ---- HistogramCollection cases (coll_parts): dispatched on case["sub"] == "coll"
+    def run_impl(self, case):
+        if case.get("sub") == "coll":
+            return coll_parts.run_impl(case)
+        return super().run_impl(case)
+
+    def model_case(self, case, io):
+        if case.get("sub") == "coll":
+            return coll_parts.model_case(case, io)
+        return super().model_case(case, io)
+
+    def diff(self, case, model_ok, io):
+        if case.get("sub") == "coll":
+            return coll_parts.diff(case, model_ok, io, self.fields_for(case))
+        return super().diff(case, model_ok, io)
+
     def gen_case(self, rng, k, tier):
+        if k % 8 == 5:
+            return coll_parts.gen(rng)
         adaptive = rng.random() < 0.35
         tags = []
         if adaptive:
@@ -131,6 +154,9 @@ class C05(Hist1Prop):
         return {"kind": "hist1", "ops": ops, "tags": tags, "src": src}
 
     def shrink_candidates(self, case):
+        if case.get("sub") == "coll":
+            yield from coll_parts.shrink_candidates(case)
+            return
         src = case["src"]
         for i in range(3):
             for j in range(len(src["sets"][i])):
@@ -141,6 +167,8 @@ class C05(Hist1Prop):
                 yield self.build(s2, case.get("tags", []))
 
     def oracle(self, case, io):
+        if case.get("sub") == "coll":
+            return coll_parts.oracle(case, io)
         outs, ops = io["outs"], case["ops"]
         fails = []
         src = case["src"]
@@ -197,6 +225,8 @@ class C05(Hist1Prop):
         return fails[:6]
 
     def nontrivial(self, case, io):
+        if case.get("sub") == "coll":
+            return coll_parts.nontrivial(case, io)
         s = case["src"]["sets"]
         return len(s[0]) > 0 and len(s[1]) > 0
 
